@@ -18,6 +18,7 @@ os.makedirs(V + '/refactors', exist_ok=True)
 out_path = V + '/refactors/MATRIX.json'
 res = json.load(open(out_path)) if os.path.exists(out_path) else {}
 env = dict(os.environ, VERIF_REPO=repo, VERIF_EVIDENCE_DIR=work + '/evidence')
+done_here = set()
 for p in patches:
     name = '%s/%s' % (os.path.basename(os.path.dirname(p)), os.path.basename(p))
     subprocess.check_call('cd %s && git checkout -q -- . && git clean -fdq' % repo, shell=True)
@@ -39,6 +40,9 @@ for p in patches:
             if c not in broken: res[name]['broken'].pop(c, None)
     else:
         res[name] = {'alarms': alarms, 'broken': broken}
+    done_here.add(name)
     print(name, 'alarms', sorted(alarms), 'broken', sorted(broken), flush=True)
-    json.dump(res, open(out_path, 'w'), indent=1, sort_keys=True)
+    cur = json.load(open(out_path)) if os.path.exists(out_path) else {}
+    cur.update({k: v for k, v in res.items() if k in done_here})
+    json.dump(cur, open(out_path, 'w'), indent=1, sort_keys=True)
 shutil.rmtree(work, ignore_errors=True)
